@@ -24,6 +24,9 @@ type jsRule struct {
 	Action int      `json:"action"`
 	Type   *int     `json:"type"` // nil = -1 (unset); always emitted
 	Flags  []string `json:"flags"`
+	Arrows [][]int  `json:"arrows"` // run-time layer only: nested '-> Node' parts [from, to] (1-based, inclusive, properly nested)
+	RType  int      `json:"rtype"`  // filled by rt-gen: listener node type of the rule-level arrow
+	AType  []int    `json:"atype"`  // filled by rt-gen: node types of the nested arrows
 }
 
 type jsInput struct {
@@ -140,6 +143,12 @@ func (g *jsGrammar) normalize() {
 		}
 		if g.Rules[i].Flags == nil {
 			g.Rules[i].Flags = []string{}
+		}
+		if g.Rules[i].Arrows == nil {
+			g.Rules[i].Arrows = [][]int{}
+		}
+		if g.Rules[i].AType == nil {
+			g.Rules[i].AType = []int{}
 		}
 	}
 	for i := range g.Prec {
